@@ -28,6 +28,17 @@ from jsonpath.pointer import UNDEFINED
 from jsonpath.pointer import JSONPointer
 
 
+def _existing_member_name(
+    parent: Mapping[object, object], target: Union[int, str]
+) -> Union[int, str]:
+    # The pointer extensions `#name` and `~name` resolve to a member's name, but
+    # they do not identify a member that could be removed or replaced.
+    name = _member_name(parent, target)
+    if name not in parent:
+        raise JSONPatchError(f"no such property {target!r}")
+    return name
+
+
 def _member_name(
     parent: Mapping[object, object], target: Union[int, str]
 ) -> Union[int, str]:
@@ -240,7 +251,7 @@ class OpRemove(Op):
         elif isinstance(parent, MutableMapping):
             if obj is UNDEFINED:
                 raise JSONPatchError("can't remove nonexistent property")
-            del parent[_member_name(parent, self.path.parts[-1])]
+            del parent[_existing_member_name(parent, self.path.parts[-1])]
         else:
             raise JSONPatchError(
                 f"unexpected operation on {parent.__class__.__name__!r}"
@@ -281,7 +292,7 @@ class OpReplace(Op):
         elif isinstance(parent, MutableMapping):
             if obj is UNDEFINED:
                 raise JSONPatchError("can't replace nonexistent property")
-            parent[_member_name(parent, self.path.parts[-1])] = value
+            parent[_existing_member_name(parent, self.path.parts[-1])] = value
         else:
             raise JSONPatchError(
                 f"unexpected operation on {parent.__class__.__name__!r}"
@@ -319,7 +330,7 @@ class OpMove(Op):
         if isinstance(source_parent, MutableSequence):
             del source_parent[_array_index(self.source.parts[-1])]
         if isinstance(source_parent, MutableMapping):
-            del source_parent[_member_name(source_parent, self.source.parts[-1])]
+            del source_parent[_existing_member_name(source_parent, self.source.parts[-1])]
 
         # Adding at the target location, as per RFC 6902 section 4.4. This
         # includes "-", an index equal to the length and out of range errors.
